@@ -28,6 +28,7 @@ mod c16;
 mod c17;
 mod c19;
 mod c20;
+mod tv;
 
 fn main() {
     let args = util::Args::parse();
@@ -52,6 +53,7 @@ fn main() {
         .or_else(|| c17::dispatch(&cmd, &args))
         .or_else(|| c19::dispatch(&cmd, &args))
         .or_else(|| c20::dispatch(&cmd, &args))
+        .or_else(|| tv::dispatch(&cmd, &args))
         .unwrap_or_else(|| {
             eprintln!("unknown subcommand {cmd}");
             2
